@@ -182,6 +182,26 @@ Theorem C03_F11_pinned_panics : length garbage_p = 188%nat /\ is_bytes garbage_p
 Proof. exact F11_af_pinned_panics. Qed.
 Print Assumptions C03_F11_pinned_panics.
 
+(* exactly when the pinned slice getters panic on an arbitrary 188-byte packet (the complement is what the C05
+   guards test) *)
+Theorem C03_pinned_TPD_getter_panics_iff : forall p, length p = 188%nat ->
+  (AFPinned.TransportPrivateData p = Panic <->
+   AF.valid p = Ok tt /\ AF.hasTransportPrivateData p = true /\ 188 < AF.adaptationExtensionStart p).
+Proof. exact pinned_TPD_panic_iff. Qed.
+Print Assumptions C03_pinned_TPD_getter_panics_iff.
+Theorem C03_pinned_Ext_getter_panics_iff : forall p, length p = 188%nat ->
+  (AFPinned.AdaptationFieldExtension p = Panic <->
+   AF.valid p = Ok tt /\ AF.hasAdaptationFieldExtension p = true /\ 188 < AF.stuffingStart p).
+Proof. exact pinned_Ext_panic_iff. Qed.
+Print Assumptions C03_pinned_Ext_getter_panics_iff.
+Theorem C03_pinned_fnTPD_panics_iff : forall p, length p = 188%nat ->
+  (AFPinned.fnTransportPrivateData p = Panic <->
+   bit (nthN p 5) 2 = true /\
+   let off := AF.transportPrivateDataStart p + 1 in
+   let hi := w8 (off + nthN p (AF.transportPrivateDataStart p)) in (hi < off \/ 188 < hi)).
+Proof. exact pinned_fnTPD_panic_iff. Qed.
+Print Assumptions C03_pinned_fnTPD_panics_iff.
+
 (* non-vacuity: a populated field next to a payload satisfies the hypotheses, and a history that removes
    populated private data, refills to capacity and is refused one byte later behaves as stated *)
 Example C03_nonvacuous :
